@@ -25,6 +25,9 @@ def swarm(run_seed, base):
               if not base.get("ops") or x[1] in base["ops"]]
         if base.get("strata_ops"):
             st = [x for x in st if x[1] in base["strata_ops"]]
+        foc = base.get("strata_focus")
+        if foc and rs_.random() < 0.5:
+            st = [x for x in st if x[1] == foc] or st
         if st:
             c["stratum"] = list(rs_.choice(st))
     c["configs"] = base.get("configs", r.random() < 0.35)
@@ -88,7 +91,7 @@ def cfg_C10(rs):
 
 def cfg_C05(rs):
     return swarm(rs, {"checks": {"sem": True}, "props": ["C05"], "weights": REPLACE_W, "fault_rates": [0.0, 0.15],
-                      "fault_kinds": ["F2", "F3c"], "ops": sorted(REPLACE_W)})
+                      "fault_kinds": ["F2", "F3c"], "ops": sorted(REPLACE_W), "strata_focus": "replace", "stratum_rate": 0.6})
 
 
 def harvest_cfgs_for(prop):
